@@ -31,6 +31,19 @@ InjLetNamesOf(stmts, inj) ==
          THEN {stmts[i].c[1].c[j].c[1].v : j \in 1..Len(stmts[i].c[1].c)} ELSE {}
          : i \in 1..Len(stmts)}
 
+(* is one of the names used (outside nested functions) in tree n ? *)
+RECURSIVE UsesAny(_, _)
+UsesAny(n, names) ==
+  IF n.t \in FnKinds THEN FALSE
+  ELSE (n.t = "Identifier" /\ n.v \in names /\ ~IsNameOnly(n)) \/ \E k \in 1..Len(n.c) : UsesAny(n.c[k], names)
+
+(* an injected `let` is a lexical declaration: a statement of its block that runs before it and uses one of its   *)
+(* names hits the temporal dead zone                                                                              *)
+UsedBeforeDeclared(stmts, inj) ==
+  \E i \in 1..Len(stmts) :
+     /\ IsInjDecl(stmts[i], [inj |-> inj, b |-> <<>>])
+     /\ \E j \in 1..(i - 1) : UsesAny(stmts[j], {stmts[i].c[1].c[k].c[1].v : k \in 1..Len(stmts[i].c[1].c)})
+
 RECURSIVE Hyg(_, _), HygSeq(_, _, _), HygKids(_, _)
 
 HygKids(n, S) == UNION {Hyg(n.c[k], S) : k \in 1..Len(n.c)}
@@ -52,8 +65,10 @@ HygSeq(elems, S, acc) ==
 Hyg(n, S) ==
   CASE n.t = "BlockStatement" ->
          LET L == InjLetNamesOf(n.c[1].c, S.inj) IN
-         HygKids(n.c[1], [S EXCEPT !.scope = L, !.same = (S.same \cup S.scope) \ L,
-                                   !.outer = S.outer \ L, !.live = S.live \ L])
+         (IF UsedBeforeDeclared(n.c[1].c, S.inj)
+          THEN {"an injected temporary is used by a statement in front of its declaration (temporal dead zone)"} ELSE {})
+         \cup HygKids(n.c[1], [S EXCEPT !.scope = L, !.same = (S.same \cup S.scope) \ L,
+                                        !.outer = S.outer \ L, !.live = S.live \ L])
     [] n.t \in FnKinds ->
          \* a new activation: nothing of the enclosing activation may be used in it
          HygKids(n, [S EXCEPT !.scope = {}, !.same = {}, !.outer = S.outer \cup S.same \cup S.scope])
